@@ -3,7 +3,7 @@
    an error outcome of frame processing is one of the documented ones; and when the
    client raises an exception the out-buffer ends with Connection.Close carrying the hard
    error code that matches the offending frame, and is sealed. *)
-From Amq Require Export Check.Core.
+From Amq Require Export Check.Core Check.CoreOracles.
 
 Definition documented_error (e : err) : bool :=
   match e with
@@ -109,5 +109,5 @@ Definition peeks_ok (ops : list cop) (obs : list (cobs * digest)) : bool :=
 Definition oracle_ok (c : case) : bool :=
   let '(_, _, ops, obs, aux) := c in
   oracle_no_panic obs && oracle_content ops obs aux && oracle_consumers ops obs &&
-  frame_outcomes_ok ops obs && peeks_ok ops obs.
+  frame_outcomes_ok ops obs && peeks_ok ops obs && exception_quiet 0 (zip3 ops obs).
 Definition bad_oracle (cs : list case) : list N := bad_idx oracle_ok 0 cs.
